@@ -813,9 +813,10 @@ def getitem(ip, v, k):
         if isinstance(k, slice):
             a = ops.const_int(k.start) if k.start is not None else None
             b = ops.const_int(k.stop) if k.stop is not None else None
-            if (k.start is not None and a is None) or (k.stop is not None and b is None) or k.step is not None:
+            st = ops.const_int(k.step) if k.step is not None else None
+            if (k.start is not None and a is None) or (k.stop is not None and b is None) or (k.step is not None and st is None):
                 raise Unsupported('symbolic slice of a concrete list')
-            return PyList(v.items[a:b])
+            return PyList(v.items[a:b:st])
         c = ops.const_int(k)
         if c is None:
             if ops.pytype(k) not in ('int', 'bool'):
